@@ -5,6 +5,14 @@
 //!        c01 replay <json>          — {"src","sexp","ty","arity","ret","args"} or {"seed","index"}
 //!        c01 show <seed> <index>    — print program `index` of run `seed` (source, s-expression, MIR)
 //!
+//! T5 tie (the composed model of `Props/C01Lower`): on every program the driver also runs
+//! `c01 t5` — the program resolved to the lowering model's core language, lowered by
+//! `LowerS.lowerProg`, its structured MIR executed with the generated operator tables — and its
+//! value must be the spec's (and the JIT's) wherever the program is in the common fragment;
+//! class representatives (`c01/t5corpus.rs`) run first, then generated programs of the fragment
+//! (`gen_program_in(.., true)`, variables named by level) whose structured MIR is also compared
+//! instruction by instruction with the real MIR dump of every function (`c01/mirtie.rs`).
+//!
 //! Per program: the Lean spec evaluates every argument tuple; where the spec
 //! yields a value the JIT result must have the same bits (NaNs canonicalised).
 //! Where the spec says `trap` (division by zero, MIN / -1) or `fuel` the JIT is
@@ -16,6 +24,12 @@
 mod ast;
 #[path = "../c01/generator.rs"]
 mod generator;
+#[path = "../c01/mirtie.rs"]
+mod mirtie;
+#[path = "../c01/t5corpus.rs"]
+mod t5corpus;
+#[path = "../c01/lirtie.rs"]
+mod lirtie;
 
 use ast::*;
 use roto::verif_hooks::core::lower_to_mir;
@@ -315,7 +329,20 @@ fn bucket(n: u64) -> String {
     match n { 0..=9 => n.to_string(), 10..=19 => "10-19".into(), 20..=49 => "20-49".into(), 50..=99 => "50-99".into(), _ => "100+".into() }
 }
 
+/// Generated programs with an index from `FRAG_BASE` on are programs of the common fragment of T5
+/// (types `i32` / `bool`, no `/` `%`), their variables named by level.
+const FRAG_BASE: u64 = 1_000_000;
+
+fn generate(seed: u64, idx: u64) -> (generator::Generated, Vec<Vec<u64>>) {
+    let mut p = Prng::for_case(seed, idx);
+    let mut g = generator::gen_program_in(&mut p, idx >= FRAG_BASE);
+    if idx >= FRAG_BASE { g.prog = rename_levels(&g.prog); }
+    let a = generator::gen_args(&mut p, g.arg_ty, g.arity, 10);
+    (g, a)
+}
+
 fn check_generated(rep: &mut Report, drv: &mut Driver, g: &generator::Generated, args: &[Vec<u64>], seed: u64, idx: u64) {
+    let frag = idx >= FRAG_BASE;
     let (src, sx) = (source(&g.prog), sexp(&g.prog));
     let c = Case { src: &src, sexp: &sx, ty: g.arg_ty, arity: g.arity, ret: g.ret };
     let ident = json!({"seed": seed, "index": idx, "src": src, "ty": g.arg_ty.name(), "arity": g.arity, "ret": g.ret.name()});
@@ -371,6 +398,14 @@ fn check_generated(rep: &mut Report, drv: &mut Driver, g: &generator::Generated,
             rep.hist("wrapping-overflows", bucket(st.wraps));
         }
     }
+    // second oracle: the composed model of T5
+    let in_fragment = t5_oracle(rep, drv, &c, args, &spec, &ident);
+    if frag {
+        rep.hist("t5-fragment-programs", if in_fragment { "in the fragment" } else { "OUTSIDE (generator)" });
+        if !in_fragment {
+            rep.mismatch("a program generated for the T5 fragment is outside it (generator/printer bug)", json!({"case": ident}));
+        }
+    }
     let comp = match compile_guarded(&c) {
         Ok(Ok(c)) => c,
         Ok(Err(e)) => {
@@ -413,6 +448,17 @@ fn check_generated(rep: &mut Report, drv: &mut Driver, g: &generator::Generated,
         return;
     }
     rep.hist("jit-vs-spec", "agree");
+    if frag && in_fragment {
+        // IR-level tie: the model's structured MIR against the real MIR of every function
+        let names: Vec<String> = g.prog.fns.iter().map(|f| f.name.clone()).collect();
+        let same = mirtie::compare_mir(rep, drv, &src, &sx, &names, &ident);
+        // LIR layer: the Lean model of lir/lower.rs on the real MIR against the real LIR
+        lirtie::compare_lir(rep, drv, &src, &ident, Some((g.arg_ty.name(), args, &spec)));
+        if same == names.len() as u64 && any_ok {
+            let sig: Vec<&str> = cons.keys().map(|s| s.as_str()).collect();
+            rep.class(format!("t5:{}|{}->{}", sig.join(","), g.arg_ty.name(), g.ret.name()));
+        }
+    }
     if any_ok {
         rep.class(format!("prog:{:016x}", fnv(&src)));
         let sig: Vec<&str> = cons.keys().map(|s| s.as_str()).collect();
@@ -421,6 +467,94 @@ fn check_generated(rep: &mut Report, drv: &mut Driver, g: &generator::Generated,
     if idx % 41 == 0 {
         rep.sample(json!({"seed": seed, "index": idx, "src": src, "args": args[0], "spec": spec[0]}));
     }
+}
+
+/// The composed model of T5 as a second oracle: `c01 t5` on every argument tuple. Where the spec
+/// yields a value the model must return the same value. Returns false when the program is
+/// outside the common fragment.
+fn t5_oracle(rep: &mut Report, drv: &mut Driver, c: &Case, args: &[Vec<u64>], spec: &[String], ident: &Value) -> bool {
+    let tuples: Vec<String> = args
+        .iter()
+        .map(|t| t.iter().map(|b| format!("{}:{b}", c.ty.name())).collect::<Vec<_>>().join(" "))
+        .collect();
+    let ans = drv.ask(&format!("c01 t5 {} {}", hex(c.sexp), tuples.join(" | ")));
+    if ans == "outside" {
+        rep.hist("t5-model", "program outside the common fragment");
+        return false;
+    }
+    let parts: Vec<&str> = ans.split(" | ").collect();
+    if ans == "nolower" || ans == "bad-program" || parts.len() != args.len() {
+        rep.mismatch("T5 tie: the composed model gives no answer on a program of the fragment (contradicts resolve_lowers)",
+            json!({"case": ident, "answer": ans.chars().take(300).collect::<String>()}));
+        return true;
+    }
+    for ((a, s), m) in args.iter().zip(spec).zip(&parts) {
+        let Some((t, b)) = parse_ok(s) else {
+            rep.hist("t5-model", "spec yields no value (not compared)");
+            continue;
+        };
+        rep.evaluations += 1;
+        match parse_ok(m) {
+            Some((mt, mb)) if mt == t && mb == b => rep.hist("t5-model", "model value = spec value"),
+            _ => {
+                rep.mismatch(
+                    "T5 tie: the composed model (resolve, LowerS.lowerProg, structured MIR run with the generated operator tables) does not return the value of the Lean Spec",
+                    json!({"case": ident, "args": a, "spec": s, "model": m}),
+                );
+                rep.hist("t5-model", "DIFFERENT");
+                return true;
+            }
+        }
+    }
+    true
+}
+
+/// One class representative of the T5 fragment: Spec, composed model and JIT on the boundary
+/// arguments; with `ir`, the model's structured MIR against the real MIR of every function.
+fn check_representative(rep: &mut Report, drv: &mut Driver, name: &str, prog: &Prog, ty: STy, ret: STy, ir: bool, k: u64) {
+    let (src, sx) = (source(prog), sexp(prog));
+    let arity = prog.main().params.len();
+    let c = Case { src: &src, sexp: &sx, ty, arity, ret };
+    let ident = json!({"t5corpus": name, "src": src, "sexp": sx, "ty": ty.name(), "arity": arity, "ret": ret.name()});
+    // every pair of boundary values, then a few mixed tuples
+    let bd = ty.boundary();
+    let mut args: Vec<Vec<u64>> = vec![];
+    let mut p = Prng::for_case(77, k);
+    for i in 0..bd.len() { args.push((0..arity).map(|j| bd[(i + j * 3) % bd.len()]).collect()); }
+    for _ in 0..8 { args.push((0..arity).map(|_| if p.chance(1, 2) { p.below(9) } else { ty.random(&mut p) }).collect()); }
+    let spec = match spec_answers(drv, &c, &args) {
+        Ok(s) => s,
+        Err(e) => { rep.mismatch("Lean spec rejects a T5 class representative", json!({"case": ident, "error": e})); return; }
+    };
+    if let Some(s) = spec.iter().find(|s| s.starts_with("stuck")) {
+        rep.mismatch("Lean spec is stuck on a T5 class representative", json!({"case": ident, "spec": s}));
+        return;
+    }
+    if !t5_oracle(rep, drv, &c, &args, &spec, &ident) {
+        rep.mismatch("a T5 class representative is outside the common fragment", json!({"case": ident}));
+        return;
+    }
+    let comp = match compile_guarded(&c) {
+        Ok(Ok(c)) => c,
+        Ok(Err(e)) => { rep.mismatch("a T5 class representative does not compile", json!({"case": ident, "error": e.chars().take(1500).collect::<String>()})); return; }
+        Err(p) => { rep.violation("the compiler panicked on a well-typed program", "compiler-panic", json!({"case": ident, "panic": p})); return; }
+    };
+    if let Some((i, s, j)) = first_difference(&c, &comp, &args, &spec) {
+        rep.violation(
+            "the compiled function returns a value different from the language-defined result (Lean Spec)",
+            &format!("control-flow t5corpus {name}"),
+            json!({"src": src, "sexp": sx, "ty": ty.name(), "arity": arity, "ret": ret.name(), "args": args[i], "spec": s, "jit_bits": j}),
+        );
+        return;
+    }
+    let mut ok = true;
+    if ir {
+        let names: Vec<String> = prog.fns.iter().map(|f| f.name.clone()).collect();
+        ok = mirtie::compare_mir(rep, drv, &src, &sx, &names, &ident) == names.len() as u64;
+    }
+    if lirtie::compare_lir(rep, drv, &src, &ident, Some((ty.name(), &args, &spec))) != prog.fns.len() as u64 { ok = false; }
+    if ok && spec.iter().any(|s| s.starts_with("ok")) { rep.class(format!("t5corpus:{name}")); }
+    rep.hist("t5-class-representatives", if ok { "agree" } else { "DIFFERENT" });
 }
 
 fn fnv(s: &str) -> u64 {
@@ -552,35 +686,49 @@ fn main() {
                         json!({"type_index": idx, "ended": format!("{how:?}"), "seed": seed}),
                     );
                 });
+            // class representatives of the T5 tie first (seed-independent), in a worker
+            let (ended, out) = run_worker_keep_stdout(&["t5corpus"], Duration::from_secs(120));
+            if let Some(v) = Report::parse_stdout(&out) { rep.merge_json(&v); }
+            if !matches!(ended, Ended::Exit(0, _)) {
+                rep.violation(
+                    "process died or hung while compiling or running a class representative of the T5 fragment",
+                    "control-flow crash t5corpus",
+                    json!({"ended": format!("{ended:?}"), "last": out.lines().rev().find(|l| l.starts_with("START ")).unwrap_or("")}),
+                );
+            }
             let n: u64 = if thorough { 20_000 } else { 300 };
+            let nfrag: u64 = if thorough { 6_000 } else { 150 };
             // like `worker::run_batches`, with a budget of crashes/hangs: a compiler that
             // miscompiles loops makes many programs hang, and one replay is enough
-            let (mut from, mut crashes, mut generated) = (0u64, 0u32, 0u64);
-            while from < n && crashes < 4 {
-                let cnt = 50.min(n - from);
-                let (f, c) = (from.to_string(), cnt.to_string());
-                let (ended, out) = run_worker_keep_stdout(&["progs", &seed_s, &f, &c], Duration::from_secs(if crashes == 0 { 60 } else { 20 }));
-                if let Some(v) = Report::parse_stdout(&out) { rep.merge_json(&v); }
-                if matches!(ended, Ended::Exit(0, _)) {
-                    from += cnt;
-                    generated = from;
-                    continue;
+            let mut crashes = 0u32;
+            let mut generated = 0u64;
+            for (base, n) in [(0u64, n), (FRAG_BASE, nfrag)] {
+                let mut from = base;
+                while from < base + n && crashes < 4 {
+                    let cnt = 50.min(base + n - from);
+                    let (f, c) = (from.to_string(), cnt.to_string());
+                    let (ended, out) = run_worker_keep_stdout(&["progs", &seed_s, &f, &c], Duration::from_secs(if crashes == 0 { 60 } else { 20 }));
+                    if let Some(v) = Report::parse_stdout(&out) { rep.merge_json(&v); }
+                    if matches!(ended, Ended::Exit(0, _)) {
+                        from += cnt;
+                        generated += cnt;
+                        continue;
+                    }
+                    crashes += 1;
+                    let idx = out.lines().rev().find_map(|l| l.strip_prefix("START ")).and_then(|s| s.trim().parse::<u64>().ok()).unwrap_or(from);
+                    let (g, _) = generate(seed, idx);
+                    rep.violation(
+                        "process died or hung (trap/abort/timeout) while compiling or running a program on inputs where the spec yields a value",
+                        "control-flow crash",
+                        json!({"seed": seed, "index": idx, "src": source(&g.prog), "ended": format!("{ended:?}")}),
+                    );
+                    generated += idx + 1 - from;
+                    from = idx + 1;
                 }
-                crashes += 1;
-                let idx = out.lines().rev().find_map(|l| l.strip_prefix("START ")).and_then(|s| s.trim().parse::<u64>().ok()).unwrap_or(from);
-                let mut p = Prng::for_case(seed, idx);
-                let g = generator::gen_program(&mut p);
-                rep.violation(
-                    "process died or hung (trap/abort/timeout) while compiling or running a program on inputs where the spec yields a value",
-                    "control-flow crash",
-                    json!({"seed": seed, "index": idx, "src": source(&g.prog), "ended": format!("{ended:?}")}),
-                );
-                from = idx + 1;
-                generated = from;
             }
-            if crashes >= 4 { rep.notes.push(format!("stopped after {crashes} crashes/hangs at program {generated} of {n}")); }
+            if crashes >= 4 { rep.notes.push(format!("stopped after {crashes} crashes/hangs at program {generated} of {}", n + nfrag)); }
             let n = generated;
-            rep.notes.push(format!("programs generated: {n}; argument tuples per program: 30; operator table: boundary^2 + {extra} random per (type, operator)"));
+            rep.notes.push(format!("programs generated: {n} (of which {nfrag} requested in the T5 fragment, variables named by level, MIR compared with the real dump); T5 class representatives: {}; argument tuples per program: 30; operator table: boundary^2 + {extra} random per (type, operator)", t5corpus::corpus().len()));
         }
         Some("worker") => {
             // the compiler's ICEs are caught and reported; keep stderr quiet
@@ -602,9 +750,7 @@ fn main() {
                     for idx in from..from + n {
                         println!("START {idx}");
                         std::io::stdout().flush().ok();
-                        let mut p = Prng::for_case(seed, idx);
-                        let g = generator::gen_program(&mut p);
-                        let a = generator::gen_args(&mut p, g.arg_ty, g.arity, 10);
+                        let (g, a) = generate(seed, idx);
                         let before = rep.impl_violations.len() + rep.model_mismatches.len();
                         check_generated(&mut rep, &mut drv, &g, &a, seed, idx);
                         // a later program may hang or crash this worker: hand findings over at once
@@ -615,6 +761,13 @@ fn main() {
                         }
                     }
                 }
+                "t5corpus" => {
+                    for (k, (name, prog, ty, ret, ir)) in t5corpus::corpus().into_iter().enumerate() {
+                        println!("START t5corpus {name}");
+                        std::io::stdout().flush().ok();
+                        check_representative(&mut rep, &mut drv, name, &prog, ty, ret, ir, k as u64);
+                    }
+                }
                 "replay1" => {
                     let v: Value = serde_json::from_str(&args[3]).expect("json");
                     replay_one(&mut rep, &mut drv, &v);
@@ -622,9 +775,7 @@ fn main() {
                 "regen" => {
                     let seed: u64 = args[3].parse().unwrap();
                     let idx: u64 = args[4].parse().unwrap();
-                    let mut p = Prng::for_case(seed, idx);
-                    let g = generator::gen_program(&mut p);
-                    let a = generator::gen_args(&mut p, g.arg_ty, g.arity, 10);
+                    let (g, a) = generate(seed, idx);
                     println!("{}", source(&g.prog));
                     std::io::stdout().flush().ok();
                     check_generated(&mut rep, &mut drv, &g, &a, seed, idx);
@@ -655,12 +806,29 @@ fn main() {
                 }
             }
         }
+        Some("stages") => {
+            // print every function of program `index` of run `seed` as MIR and as LIR (hook stage_pairs)
+            let seed: u64 = args[2].parse().unwrap();
+            let idx: u64 = args[3].parse().unwrap();
+            let (g, _) = generate(seed, idx);
+            let src = source(&g.prog);
+            println!("{src}");
+            let rt: &'static Runtime<roto::NoCtx> = Box::leak(Box::new(Runtime::new()));
+            match roto::verif_hooks::c01::stage_pairs(FileTree::test_file("c01.roto", &src, 0), rt) {
+                Ok(ps) => for p in ps {
+                    println!("== {} tmp_idx={} returns_value={}", p.name, p.mir_tmp_idx, p.lir_returns_value);
+                    println!("vars: {}", p.lir_vars.iter().map(|(v, t)| format!("{v}:{t}")).collect::<Vec<_>>().join(" "));
+                    for (l, ins) in &p.mir { println!("  M{l}: {}", ins.join(" ; ")); }
+                    for (l, ins) in &p.lir { println!("  L{l}: {}", ins.join(" ; ")); }
+                },
+                Err(e) => println!("error: {e}"),
+            }
+            return;
+        }
         Some("show") => {
             let seed: u64 = args[2].parse().unwrap();
             let idx: u64 = args[3].parse().unwrap();
-            let mut p = Prng::for_case(seed, idx);
-            let g = generator::gen_program(&mut p);
-            let a = generator::gen_args(&mut p, g.arg_ty, g.arity, 10);
+            let (g, a) = generate(seed, idx);
             let (src, sx) = (source(&g.prog), sexp(&g.prog));
             println!("{src}\n{sx}\nargs[0] = {:?}", a[0]);
             let c = Case { src: &src, sexp: &sx, ty: g.arg_ty, arity: g.arity, ret: g.ret };
